@@ -136,6 +136,7 @@ def decide(pid, tier, seed, plan, results, quals, wall):
         solver_seconds += r.get('solver_seconds', 0.0)
     violations = []
     known_hits = []
+    unfit = []          # functions that left the verified subset / whose contract no longer fits the code: undecided, not a violation
     proof_obls = [o for o in obligations]
     discharged = 0
     by_backend = {}
@@ -147,6 +148,9 @@ def decide(pid, tier, seed, plan, results, quals, wall):
         k = match_known(known, pid, o['name'], json.dumps(o.get('model') or o.get('witness') or ''))
         if k is not None:
             known_hits.append((o, k))
+            continue
+        if o['name'].endswith('/in-subset'):
+            unfit.append(o)
             continue
         violations.append(o)
     bfail = []
@@ -194,6 +198,7 @@ def decide(pid, tier, seed, plan, results, quals, wall):
                          'label': 'bounded stand-in, never counted as proved'} for b in bounded],
             'known_findings_matched': sorted({k['id'] for _, k in known_hits}),
             'undischarged': [{'obligation': o['name'], 'verdict': o['verdict']} for o in violations][:50],
+            'outside_subset': [{'unit': o['name'], 'why': (o.get('detail') or '')[:200]} for o in unfit],
             'engine_errors': [u for u, _ in errors],
             'samples': samples,
             'explanation': plan.get('explanation', ''),
@@ -213,9 +218,12 @@ def decide(pid, tier, seed, plan, results, quals, wall):
             print('ENGINE-ERROR unit=%s\n%s' % (u, e), file=sys.stderr)
     print('%s %s: %d obligations, %d discharged, %d known findings, %d violations, %d bounded units, %.1fs' %
           (pid, tier, n_obl, discharged, len(known_hits), len(vio_lines), len(bounded), wall))
+    for o in unfit:
+        print('UNDECIDED property=%s unit=%s: the function uses a construct outside the verified subset or its contract no longer fits the code (%s); '
+              'its obligations were not generated -- neither a violation nor a pass' % (pid, o['name'].rsplit('/', 1)[0], (o.get('detail') or '')[:160]))
     if vio_lines:
         return 1
-    if errors:
+    if errors or unfit:
         return 3
     if n_obl == 0:
         print('no obligations generated: refusing to report success', file=sys.stderr)
